@@ -1083,7 +1083,7 @@ pub fn run(scn: &ObjScenario, record: bool) -> RunResult {
     }
 
     // --- E: the stream must be invisible when it was merely awkward -------------------
-    let (rd_err, eof_stop, eof_resumed) = (ledger.get(K::read_err) + ledger.get(K::read_err_after_eof), ledger.get(K::early_eof), ledger.get(K::early_eof_resumed));
+    let (rd_err, eof_stop, eof_resumed) = (ledger.get(K::read_err) + ledger.get(K::read_err_after_eof) + ledger.get(K::open_err), ledger.get(K::early_eof), ledger.get(K::early_eof_resumed));
     if rd_err == 0 && eof_resumed == 0 {
         if let Some(sout) = &streamed_out {
             // with a non-resuming early EOF the consumer saw exactly a prefix
@@ -1347,6 +1347,9 @@ pub fn shrink_reader(r: &ReaderCfg) -> Vec<ReaderCfg> {
     }
     if r.err_after_eof.is_some() {
         out.push(ReaderCfg { err_after_eof: None, ..r.clone() });
+    }
+    if r.open_err.is_some() {
+        out.push(ReaderCfg { open_err: None, ..r.clone() });
     }
     out
 }
